@@ -769,6 +769,31 @@ func TestEscapesNextToOddCharacters(t *testing.T) {
 	evid.Exhaustive("odd character x escape x quoting form x arrangement x context", n)
 }
 
+// TestCommentEndings: a # comment ended by every kind of line end (LF, CR LF, a lone CR, end of text) and followed by
+// every kind of character - ASCII, two-, three- and four-byte characters, odd characters, invalid bytes: the comment
+// token ends where the line ends, the tokens cover the text, parsing ends with a tree or a positioned diagnostic.
+func TestCommentEndings(t *testing.T) {
+	next := []string{"", "a = 2\n", "é = 2\n", "中 = 2\n", "\U0001F600 = 2\n", "\xff", "\x80\x80", " 中", " ", "\ufeffb = 1", "#\r中", "\r中 = 1"}
+	for _, r := range gen.OddRunes {
+		next = append(next, string(r)+" = 2\n")
+	}
+	n := 0
+	for _, pre := range []string{"", "a = 1\n", "a = 1 ", "x = [1, ", "if a {\n"} {
+		for _, body := range []string{"", "x", " note ab", " 中文", "#", " c \\", strings.Repeat("c", 17), " \"q"} {
+			for _, end := range []string{"\n", "\r\n", "\r", "", "\r\r", "\n\r"} {
+				for ni, nx := range next {
+					if (n+ni)%evid.NShards() != evid.Shard() {
+						continue
+					}
+					one(t, "comment-endings", "comment-ending", pre+"#"+body+end+nx)
+				}
+				n++
+			}
+		}
+	}
+	evid.Exhaustive("context x comment body x line end x following character", n*len(next))
+}
+
 func TestMalformedLeaves(t *testing.T) {
 	rk.Check(t, "badleaf", 8, evid.Scale(4000, 60000), func(t *rapid.T) {
 		prog := gen.Program(t, gen.ProfileSyntax())
